@@ -115,4 +115,10 @@ META = {
   text="Generated search over configuration mixes and restart timings (gate-controlled steps, concurrent restarts); the loaded task set is compared with an independent model through an observation hook, and runner exclusivity is decided from the transaction events seen by the fake Postgres.",
   note="Hook: shovel/verif_hooks.go (build tag verif) exposes the loaded task list. Liveness clauses are checked with bounded waits.",
  ),
+ "C18": dict(
+  design_ref="DESIGN.md §5 C18",
+  technique="rapid generated concurrent workloads (real goroutines, shared client, poller, reorgs) under the Go race detector; reports classified by the packages of the two conflicting stacks",
+  text="Generated search over concurrent workloads with the race detector as oracle. Exploration: it finds races on executed paths only and perturbs, rather than controls, the schedule.",
+  note="Trusted: the Go race detector; the harness (fakepg, sim node) is itself run under -race and a race inside it makes the run inconclusive.",
+ ),
 }
